@@ -559,18 +559,26 @@ func specMapped(m *mappedFile) bool {
 //@   at call close#1: assert $invalidated
 //@   modifies heap, $invalidated, $ledger, $lost, $refreshed, $touched, $fsops, $minsize, $tried
 
+// rotate1 follows the same protocol in its first deferred function (which runs
+// last, after the mutex was released): if the current mapping changed, the
+// counters are invalidated before the previous mapping is closed.
+//@ contract rotate1$1
+//@   inline
+//@   at call invalidateCounters#1: after ghost $invalidated = true
+//@   at call close#1: assert $invalidated
+
 //@ contract (*file).rotate1
 //@   requires $rd == 0 && $lk == 0
-//@   modifies heap, $fsops, $minsize, $now, $weekend, $ledger, $lost, $refreshed, $touched
+//@   modifies heap, $fsops, $minsize, $now, $weekend, $ledger, $lost, $refreshed, $touched, $invalidated
 
 //@ contract (*file).rotate
 //@   requires $rd == 0 && $lk == 0
-//@   modifies heap, $fsops, $minsize, $now, $weekend, $ledger, $lost, $refreshed, $touched
+//@   modifies heap, $fsops, $minsize, $now, $weekend, $ledger, $lost, $refreshed, $touched, $invalidated
 
 //@ contract Open
 //@   requires $rd == 0 && $lk == 0
 //@   allows panic#1: documented API misuse: Open and OpenAndRotate must not both be used in one process
-//@   modifies heap, rotating, defaultFile, $fsops, $minsize, $now, $weekend, $ledger, $lost, $refreshed, $touched
+//@   modifies heap, rotating, defaultFile, $fsops, $minsize, $now, $weekend, $ledger, $lost, $refreshed, $touched, $invalidated
 
 // ---------------------------------------------------------------------------
 // C15 / C05: stack counters
